@@ -265,9 +265,9 @@ def check_c03(tier, seed, replay=None):
                         'random interleaving of concurrent push_backs; functional oracle = basis validity + returned == emitted + optimum (exact) / (2k-1) bound (approx) + agreement with the sequential variant; '
                         'non-trivial = cycle space dimension >= 2; distinct by canonical graph hash',
                         dict(serial_shim=dict(agg.summary), threaded_tsan=dict(evaluations=aggt.evaluations, distinct_nontrivial=len(aggt.hashes), tsan_reports_total=len(races),
-                             tsan_reports_with_parmcb_frame=len([r for r in races if r.get('parmcb_frame')]), **{k: aggt.summary.get(k, 0) for k in ('executions', 'regions', 'leaves', 'runs', 'joins', 'distinct_schedule_shapes', 'concurrent_push_backs')}),
+                             tsan_reports_with_parmcb_frame=len([r for r in races if r.get('parmcb_frame')]), **{k: aggt.summary.get(k, 0) for k in ('executions', 'regions', 'leaves', 'runs', 'joins', 'distinct_schedule_shapes_in_one_process_max', 'concurrent_push_backs')}),
                              real_onetbb=dict(evaluations=aggr.evaluations, executions=aggr.summary.get('executions', 0), limits=[1, 2, 4, 16]),
-                             distinct_schedule_shapes=agg.summary.get('distinct_schedule_shapes', 0), regions=agg.summary.get('regions', 0),
+                             distinct_schedule_shapes_lower_bound=agg.summary.get('distinct_schedule_shapes_in_one_process_max', 0), distinct_schedule_shapes_upper_bound=agg.summary.get('distinct_schedule_shapes_summed_over_processes', 0), shape_note='a shape = (cut points, run boundaries, join tree) of one parallel region; each worker process counts its own distinct shapes: the maximum over processes is a lower bound and the sum an upper bound of the number of distinct shapes seen', regions=agg.summary.get('regions', 0),
                              joins_combining_two_nonidentity_values=agg.summary.get('joins_nonidentity_nonidentity', 0)))
     return v.finish(cov, ['the shim implements the documented execution space of parallel_for / parallel_reduce / concurrent_vector, not oneTBB\'s implementation',
                           'ThreadSanitizer sees every synchronisation of the shim (std::thread create/join, atomics); races needing weak hardware ordering are outside its model'])
@@ -354,6 +354,20 @@ def check_c07(tier, seed, replay=None):
     v.absorb(at, functional=False)
     per['h_sched:c03t(tsan)'] = dict(cases=at.evaluations, sanitizer_reports=len(at.sanitizer_reports), crashes=len(at.crashes))
     total.evaluations += at.evaluations
+    # the MPI entry points under ASan+UBSan inside real mpiexec jobs (leak detection off: OpenMPI's own start-up allocations are not parmcb's)
+    import mpirun
+    bm = lib.build('h_mpi', 'mpiasan')
+    am = lib.Agg()
+    menv = dict(os.environ, ASAN_OPTIONS='detect_leaks=0:halt_on_error=1:abort_on_error=0:exitcode=99:hard_rss_limit_mb=6000', UBSAN_OPTIONS='print_stacktrace=1:halt_on_error=1')
+    for P in T(tier, [2, 3], [1, 2, 3, 5]):
+        mpirun.run_mpi_cases(am, bm, sd + P, P, 0, T(tier, 12, 120), dict(max_n=T(tier, 14, 20), layout='natural'), T(tier, 300, 900), 'h_mpi(asan):P=%d' % P, MPI_ENTRIES, env=menv)
+    # crashes of an MPI job surface as '<entry>:crash' violations of the runner: they are sanitizer/crash evidence here
+    for vv in am.violations:
+        if vv['key'].endswith(':crash') or vv['key'].endswith(':hang'):
+            v.add('mpi-asan:' + vv['key'], vv)
+    v.absorb(am, functional=False)
+    per['h_mpi(asan+ubsan) P in %s' % T(tier, [2, 3], [1, 2, 3, 5])] = dict(cases=am.evaluations, sanitizer_reports=len(am.sanitizer_reports))
+    total.evaluations += am.evaluations
     # valgrind memcheck for uninitialised-value use (ASan does not see it)
     vg = ['valgrind', '--quiet', '--error-exitcode=97', '--track-origins=no', '--leak-check=no', '--undef-value-errors=yes']
     for h, mode, q, t, opts in [('h_vec', 'c18gcd', 135, 400, {}), ('h_vec', 'c18vec', 120, 2000, {}), ('h_vec', 'c17', 100, 2000, {}), ('h_dimacs', 'c10', 300, 6000, {}), ('h_parts', 'c13', 40, 600, dict(max_n=40)),
@@ -442,7 +456,7 @@ def main():
 ALL_BUILDS = [('h_exact', 'plain'), ('h_exact', 'asan'), ('h_approx', 'plain'), ('h_approx', 'asan'), ('h_parts', 'plain'), ('h_parts', 'asan'),
               ('h_vec', 'plain'), ('h_vec', 'asan'), ('h_dimacs', 'plain'), ('h_dimacs', 'asan'),
               ('h_sched', 'shim'), ('h_sched', 'tsan'), ('h_sched', 'plain'), ('h_mpi', 'mpi'), ('h_knob', 'plain'), ('h_knob', 'shim'), ('h_sched', 'asan'),
-              ('h_vec', 'valgrind'), ('h_dimacs', 'valgrind'), ('h_parts', 'valgrind'), ('h_exact', 'valgrind')]
+              ('h_vec', 'valgrind'), ('h_dimacs', 'valgrind'), ('h_parts', 'valgrind'), ('h_exact', 'valgrind'), ('h_mpi', 'mpiasan')]
 
 
 def build_all():
